@@ -68,7 +68,8 @@ def run(ctx, out):
     out.rule = ("source trees with links to files, to directories, to links (chains up to 30), relative and absolute, inside and "
                 "outside the source, dangling (top level and deep), two-link cycles, self links and links to an ancestor; "
                 "-r -L with both drivers; also link OPERANDS (to file / directory, chains, absolute, dangling, cyclic; alone, among "
-                "several sources, onto a new name); an errno at every readlink of a resolvable tree (exit 0 must still mean: no links); "
+                "several sources, onto a new name); a -L copy over the result of an earlier plain copy (links, dangling links, stale files "
+                "where directories must appear); an errno at every readlink of a resolvable tree (exit 0 must still mean: no links); "
                 "destination compared with an independent resolver (os.stat/os.listdir following links) "
                 "and the Gallina walk on the resolved tree; non-trivial = tree contains a link; distinct = (link mix, driver, k)")
     d0 = ctx.work.fresh("c13")
@@ -194,6 +195,51 @@ def run(ctx, out):
                         if problem:
                             out.violation("exit 0 but " + problem, rep)
                     shutil.rmtree(d, ignore_errors=True)
+    # a second copy WITH -L over the result of a first copy WITHOUT it: the destination holds the links verbatim (some of them
+    # dangle there), files where directories must now appear ...: either the run fails or the destination ends up link-free
+    # and complete — never exit 0 with the old entry left where a directory should have been created
+    for rep_i in range(2 if quick else 12):
+        for driver in ("parfile", "parblock"):
+            k += 1
+            d = os.path.join(d0, "h%d" % k)
+            os.makedirs(os.path.join(d, "src", "sub"))
+            os.makedirs(os.path.join(d, "ext", "spool"))          # an EMPTY directory outside the source
+            os.makedirs(os.path.join(d, "ext", "cache"))
+            os.makedirs(os.path.join(d, "out"))
+            open(os.path.join(d, "src", "f"), "wb").write(b"f" * rng.randrange(1, 5000))
+            open(os.path.join(d, "src", "sub", "g"), "wb").write(b"g" * 100)
+            open(os.path.join(d, "ext", "real.txt"), "wb").write(b"real")
+            if rng.random() < 0.5:
+                open(os.path.join(d, "ext", "cache", "blob"), "wb").write(b"blob")
+            os.symlink("../ext/spool", os.path.join(d, "src", "spool"))                 # -> empty dir; dangles once copied to out/src
+            os.symlink("../../ext/cache", os.path.join(d, "src", "sub", "c1"))
+            os.symlink("c1", os.path.join(d, "src", "sub", "c2"))                       # chain to a directory
+            os.symlink("../ext/real.txt", os.path.join(d, "src", "lf"))
+            first = xcp.run_plain([ctx.bins["xcp"], "-r", "--driver", driver, "src", "out"], d)
+            if rng.random() < 0.5:
+                # ... or a stale regular FILE sits where the directory link resolves to a directory
+                try:
+                    os.unlink(os.path.join(d, "out", "src", "sub", "c2"))
+                    open(os.path.join(d, "out", "src", "sub", "c2"), "wb").write(b"stale file")
+                except OSError:
+                    pass
+            argv = [ctx.bins["xcp"], "-r", "-L", "--driver", driver, "-w", str(rng.choice([1, 2, 4])), "src", "out"]
+            r = xcp.run_plain(argv, d)
+            out.case(("deref-over-plain-copy", driver, k), nontrivial=True)
+            out.count("deref_history")
+            rep = dict(history=["-r src out", "-r -L src out"], driver=driver, argv=argv[1:], first_exit=first.exit, exit=r.exit, stderr=r.stderr[-300:])
+            if r.exit == 0:
+                left = []
+                for root, dirs, files in os.walk(os.path.join(d, "out", "src")):
+                    for nme in dirs + files:
+                        if os.path.islink(os.path.join(root, nme)):
+                            left.append(os.path.relpath(os.path.join(root, nme), os.path.join(d, "out")))
+                notdir = [x for x in ("spool", "sub/c1", "sub/c2") if not os.path.isdir(os.path.join(d, "out", "src", x))
+                          or os.path.islink(os.path.join(d, "out", "src", x))]
+                if left or notdir:
+                    out.violation("-L over an earlier plain copy exited 0 but left links %s / non-directories %s where the links resolve to "
+                                  "directories" % (left[:3], notdir), rep)
+            shutil.rmtree(d, ignore_errors=True)
     # a link that cannot be RESOLVED at the moment it is met (readlink / stat of a component fails: EIO, EACCES, ELOOP,
     # ENAMETOOLONG) is like a dangling one: the run fails; it never falls back to recreating the link
     sup = core.build_sup()
